@@ -121,6 +121,12 @@ type strer struct{ s string }
 
 func (s strer) String() string { return s.s }
 
+// named string types: one plain (not a string, not a stringer), one with a String method
+type nstr string
+type nstrS string
+
+func (n nstrS) String() string { return "kw:" + string(n) }
+
 // a stringer whose value is not its type's zero value even when its text is empty
 type strer2 struct {
 	s string
@@ -271,6 +277,11 @@ func (w *World) val(v Val) any {
 			ctx = ""
 		}
 		return userOp{v.S, ctx}
+	case "nstr":
+		if v.D == 1 {
+			return nstrS(v.S)
+		}
+		return nstr(v.S)
 	case "fop":
 		return flipOp{w, v.S}
 	case "pstr":
@@ -447,6 +458,10 @@ func (w *World) describeD(x any, depth int) string {
 		return "op" + strconv.Itoa(int(v))
 	case userOp:
 		return "uop(" + v.text + "," + v.ctx + ")"
+	case nstr:
+		return "nstr(" + string(v) + ")"
+	case nstrS:
+		return "nstrS(" + string(v) + ")"
 	case flipOp:
 		return "fop(" + v.name + ")"
 	case *string:
